@@ -266,7 +266,7 @@ def gen_dpes(rng, count):
         return rng.randint(1 << 52, (1 << 53) - 1)
     LMAX = 2 ** 63 - 1
     fixed = [(1 << 52, 1, "one"), (1 << 52, 0, "half"), ((1 << 53) - 1, 0, "below-one"), (1 << 52, LMAX, "long-max"), (1 << 52, -LMAX - 1, "long-min"),
-             ((1 << 53) - 1, LMAX, "long-max"), (0x1e9c3f9a1a6f04 , -993, "coq-witness-1e13"), (5 << 50, 4, "ten"), (0x1a66ab7e0bd0ec, 79, "coq-witness-gnuplot")]
+             ((1 << 53) - 1, LMAX, "long-max"), (8405160066430185, -1003, "coq-witness-1e13"), (5 << 50, 4, "ten"), (4644686967134476 // 2 * 2, 80, "coq-witness-gnuplot(as DPE)")]
     for num, e, cls in fixed: add(num, e, cls)
     out.append(("0" * 16, 0, "zero"))
     # exact powers of ten and their neighbours: 10^k = m * 2^e
@@ -295,7 +295,7 @@ def gen_dpes(rng, count):
 def gen_mpfs(rng, count):
     """(kind M|G, mantissa integer, exp2, prec, class)"""
     out = [("M", 0, 0, 64, "zero"), ("G", 0, 0, 64, "zero"), ("M", 1, 0, 64, "one"), ("G", 1, 0, 64, "one"), ("G", 10 ** 22, 0, 128, "power-of-ten"),
-           ("G", 623399332000000040000000, 0, 128, "known-finding"), ("M", (1 << 200) - 1, -300, 256, "all-ones"), ("G", (1 << 64) - 1, -64, 64, "all-ones")]
+           ("G", 623399332000000040000000, 0, 128, "coq-witness-gnuplot"), ("M", (1 << 200) - 1, -300, 256, "all-ones"), ("G", (1 << 64) - 1, -64, 64, "all-ones")]
     while len(out) < count:
         prec = rng.choice([53, 64, 64, 128, 192, 256, 1024])
         t = rng.random()
@@ -416,14 +416,20 @@ def rad_tie(ctx, rad, env, stats, only=None):
             worst["log10_err_ulps"] = max(worst["log10_err_ulps"], float(abs(D(lg.numerator) / D(lg.denominator) - lref) * D(2) ** 53))
             pref = dctx.power(D(10), D(fr_.numerator) / D(fr_.denominator))
             worst["pow_err_ulps"] = max(worst["pow_err_ulps"], float(abs((D(pw.numerator) / D(pw.denominator) - pref) / pref) * D(2) ** 53))
-            # ---- the proved bound (C17_printed_radius_ge with ulog = upow = 2^-52): |esp| <= 2^53
-            if abs(esp) <= 2 ** 53:
-                Dq = (1 + Fr(1, 2 ** 53)) * ULOG + (abs(esp) + 1) * Fr(1, 2 ** 53)
+            # ---- the proved bound (C17_printed_radius_ge with ulog = 2^-53, upow = 2^-52; any exponent)
+            if True:
+                Dq = (1 + Fr(1, 2 ** 53)) * ULOG + (abs(esp) + 1) * Fr(5, 4) * Fr(1, 2 ** 53)
                 bound = LN10_UP * Dq + UPOW + Fr(5, 10 ** 14)
                 margin = bound - deficit
                 if worst["bound_margin_min"] is None or margin < worst["bound_margin_min"]: worst["bound_margin_min"] = margin
                 if deficit > bound:
                     bad = "the proved bound printed >= stored * (1 - %.3g) fails (deficit %.3g)" % (float(bound), float(deficit))
+        if cls == "coq-witness-1e13":
+            # C17_printed_radius_1e13_refuted replayed on the real rdpe_out_str: the witness must print as in the theorem and be short by > 1e-13
+            ok = (htx == " 0.10886056081147x-301" and hlg == "bf9ec3cc0f84a450" and hpw == "3fbbde4924826ec3" and deficit > Fr(RADSLACK[0], RADSLACK[1]))
+            stats["witness:C17_printed_radius_1e13_refuted:" + ("reproduced" if ok else "NOT-reproduced")] += 1
+            if not ok:
+                ctx.violation("correspondence:witness:C17_printed_radius_1e13_refuted", "the witness of the refutation prints %r (log10 %s, pow %s) on the real code: not what the theorem states" % (htx, hlg, hpw), rp(i), no_input=True)
         if same and libm_same and not bad:
             agree += 1
         else:
@@ -458,6 +464,11 @@ def rad_tie(ctx, rad, env, stats, only=None):
                 else:
                     ctx.violation("close:gnuplot:far-off", "gnuplot rendering of the mpf %s is %s" % (sf(v), hf[1].strip()), rpo)
             else: stats["dpe:gnuplot-mpf:within-one-unit"] += 1
+            if cls == "coq-witness-gnuplot":
+                ok = hf[1] == " 6.23399332000003e+023"
+                stats["witness:C17_gnuplot_unit_refuted:" + ("reproduced" if ok else "NOT-reproduced")] += 1
+                if not ok:
+                    ctx.violation("correspondence:witness:C17_gnuplot_unit_refuted", "the witness of the refutation prints %r on the real code" % hf[1], rpo, no_input=True)
             if hf[1] != ml:
                 ctx.violation("correspondence:gnuplot_component", "mpf %s*2^%d@%d (%s): model %r, code %r" % (mm, e2, pr, cls, ml, hf[1]), rpo, no_input=True)
             else: magree += 1
